@@ -24,7 +24,8 @@ EXPLANATION = (
     ' Also: (R7) backends keep no mutable per-instance state; an error is permanent only by membership in PERMANENT_S3_ERROR_CODES; hand-written page loops follow NextContinuationToken; seek uses plain arithmetic.'
     " Subclasses of the S3 backend / range reader are held to their parent's rules (R2/R3/R4/R7 iterate the class family)."
     " (R8) every operation reaches its primitive on every normal path and both listings keep every entry; (R9) key mapping round trip by scenario evaluation (_get_s3_key vs the listing's prefix strip)."
-    " (R10) the S3 listing walks every page; (R11) ages derived from LastModified use UTC-aware clocks; (R12) S3FileStream.read is a faithful pipe (no handler turns an error into a short read); (R13) every PUT body is a bytes value. R3's retry loop is decided by simulating retry_with_backoff on 'every attempt fails' for max_retries = 1 and 2 (for/while, 0- or 1-based counters, helpers analysed in place); R6 accepts any arithmetic shape of the guard / clamp whose linear form implies pos < size and last <= size - 1; function values are followed through partial / lambda / factory returns / later-added per-key methods.")
+    " (R10) the S3 listing walks every page; (R11) ages derived from LastModified use UTC-aware clocks; (R12) S3FileStream.read is a faithful pipe (no handler turns an error into a short read); (R13) every PUT body is a bytes value. R3's retry loop is decided by simulating retry_with_backoff on 'every attempt fails' for max_retries = 1 and 2 (for/while, 0- or 1-based counters, helpers analysed in place); R6 accepts any arithmetic shape of the guard / clamp whose linear form implies pos < size and last <= size - 1; function values are followed through partial / lambda / factory returns / later-added per-key methods."
+    ' (R14) a retried operation is restartable: the function handed to with_s3_retry mutates nothing it captured.')
 NOT_DECIDED = "operation-sequence equivalence of the two backends at run time; S3's own consistency"
 
 SB = "storage_backend"
@@ -43,6 +44,7 @@ def check(ctx: Ctx) -> None:
     r10_listing_exhaustive(ctx)
     r11_utc_ages(ctx)
     r12_stream_faithful(ctx)
+    r14_retried_ops_restartable(ctx)
     r13_bodies_are_bytes(ctx)
 
 
@@ -887,6 +889,59 @@ def r3(ctx: Ctx) -> None:
            bool(vals) and "404" not in vals and "NoSuchKey" not in vals and "AccessDenied" in vals, f"{len(vals)} permanent codes", nontrivial=False)
 
 
+def r14_retried_ops_restartable(ctx: Ctx, rid: str = "C20.R14") -> None:
+    ctx.rule(rid, "a retried operation starts from scratch: the function handed to with_s3_retry (closure, lambda, partial) does not "
+             "mutate anything it captured from the enclosing scope - no append / extend / update / item store on a captured "
+             "variable, no `nonlocal` rebinding - so an attempt that failed half-way leaves nothing behind for the next one (a "
+             "listing accumulator that survives a retry duplicates or skips entries)", 1)
+    from .common import MUTATORS
+    n_ops = 0
+    for mod in ctx.prog.modules.values():
+        for top in [f for f in ctx.prog.functions.values() if f.module is mod and not isinstance(f.node, ast.Lambda)]:
+            for call in [x for x in ast.walk(top.node) if _is_retry_call(x)]:
+                if not call.args:  # type: ignore[attr-defined]
+                    continue
+                # only the calls that belong to `top` itself (not to a function nested inside it)
+                if any(call in list(ast.walk(nf.node)) for nf in top.nested.values()):
+                    continue
+                op = call.args[0]  # type: ignore[attr-defined]
+                if isinstance(op, ast.Call) and (dotted(op.func) or "").split(".")[-1] == "partial" and op.args:
+                    op = op.args[0]
+                for fv in ctx.eff.function_values(op, top):
+                    n_ops += 1
+                    if fv.parent is None and not isinstance(fv.node, ast.Lambda):
+                        ctx.ob(rid, fv, "the retried operation mutates nothing it captured", None, True,
+                               "a method / module-level function captures nothing", text=f"{top.name}:{fv.name}")
+                        continue
+                    body = fv.node
+                    own = {a.arg for a in ast.walk(body.args) if isinstance(a, ast.arg)} if hasattr(body, "args") else set()  # type: ignore[attr-defined]
+                    assigned = set()
+                    nonlocals = set()
+                    for x in ast.walk(body):
+                        if isinstance(x, ast.Name) and isinstance(x.ctx, ast.Store):
+                            assigned.add(x.id)
+                        if isinstance(x, (ast.Nonlocal, ast.Global)):
+                            nonlocals |= set(x.names)
+                    local = (own | assigned) - nonlocals
+                    bad = []
+                    for x in ast.walk(body):
+                        if isinstance(x, ast.Call) and isinstance(x.func, ast.Attribute) and x.func.attr in MUTATORS \
+                                and isinstance(x.func.value, ast.Name) and x.func.value.id not in local:
+                            bad.append(f"{x.func.value.id}.{x.func.attr}(...) at line {x.lineno}")
+                        if isinstance(x, (ast.Assign, ast.AugAssign)):
+                            for t in (x.targets if isinstance(x, ast.Assign) else [x.target]):
+                                if isinstance(t, ast.Subscript) and isinstance(t.value, ast.Name) and t.value.id not in local:
+                                    bad.append(f"{t.value.id}[...] = ... at line {x.lineno}")
+                                if isinstance(t, ast.Name) and t.id in nonlocals:
+                                    bad.append(f"nonlocal {t.id} rebound at line {x.lineno}")
+                    ctx.ob(rid, fv if not isinstance(fv.node, ast.Lambda) else top, "the retried operation mutates nothing it captured", None, not bad,
+                           "every attempt builds its own result" if not bad else
+                           f"state survives a failed attempt: {bad[0]} - the next attempt continues from a half-finished result",
+                           text=f"{top.name}:{getattr(fv, 'name', 'lambda')}")
+    if n_ops == 0:
+        raise AnalysisError("no closure handed to with_s3_retry found")
+
+
 def r7(ctx: Ctx, rid: str = "C20.R7") -> None:
     ctx.rule(rid, "backends are stateless: no method other than __init__ stores to an instance attribute (no size / path / listing "
              "cache that a write through another method - or another process - can leave stale)", 2)
@@ -946,7 +1001,8 @@ def r5(ctx: Ctx, rid: str = "C20.R5") -> None:
             if pk is not None:
                 uses.append((nf, n, pk))
     if not uses:
-        any_list = next(((nf, c) for nf in scopes for c in ctx.cfg(nf).calls() if c.callee and c.callee.name.startswith("boto.list_objects")), None)
+        any_list = next(((nf, c) for nf in scopes for c in ctx.cfg(nf).calls()
+                         if c.callee and (c.callee.name.startswith("boto.list_objects") or c.callee.name.split(".")[-1] == "paginate")), None)
         for d in [x for x in ast.walk(lf.node) if isinstance(x, ast.Dict)]:
             for k, v in zip(d.keys, d.values):
                 if isinstance(k, ast.Constant) and k.value == "Prefix" and any_list is not None:
